@@ -1,5 +1,7 @@
 import Driver.SqlParse
-/-! C11 driver: `tbl`, `row`, `q` (fragment query evaluated by `ImmuModel.Sql.runIndex`). -/
+import ImmuModel.Sql.SelectPlan
+/-! C11 driver: `tbl`, `row`, `q` (fragment query evaluated by `ImmuModel.Sql.runIndex`),
+`plan` / `pq` (query planned by `ImmuModel.Sql.planOf` and executed by `runPlan`). -/
 namespace Driver.C11
 open ImmuModel ImmuModel.Sql Driver.SqlParse
 
@@ -21,6 +23,67 @@ def parseCols : Nat → List String → Option (List Col × List String)
     | some c, some (cs, r) => some (c :: cs, r)
     | _, _ => none
   | _, _ => none
+
+/-- `n` lists, each `<len> c₁ … c_len` -/
+def parseNatLists : Nat → List String → Option (List (List Nat) × List String)
+  | 0, rest => some ([], rest)
+  | n + 1, k :: rest =>
+    match k.toNat? with
+    | some k =>
+      match parseNats k rest with
+      | some (l, r) =>
+        match parseNatLists n r with
+        | some (ls, r') => some (l :: ls, r')
+        | none => none
+      | none => none
+    | none => none
+  | _, _ => none
+
+/-- `n` pairs `col desc01` -/
+def parseOrd : Nat → List String → Option (List OrdCol × List String)
+  | 0, rest => some ([], rest)
+  | n + 1, c :: d :: rest =>
+    match c.toNat?, parseOrd n rest with
+    | some c, some (os, r) => some (⟨c, d == "1"⟩ :: os, r)
+    | _, _ => none
+  | _, _ => none
+
+/-- `<nsec> {<len> c…}… <hintLen | -1> {c…} <nord> {col desc}… <limit> <offset> <pred…>` -/
+def parsePQ (toks : List String) : Option (List (List Nat) × PQuery) :=
+  match toks with
+  | n :: rest =>
+    match n.toNat? with
+    | some n =>
+      match parseNatLists n rest with
+      | some (secs, h :: r1) =>
+        let hint : Option (Option (List Nat) × List String) :=
+          if h == "-1" then some (none, r1)
+          else match h.toNat? with
+            | some k => match parseNats k r1 with
+              | some (l, r) => some (some l, r)
+              | none => none
+            | none => none
+        match hint with
+        | some (hint, no :: r2) =>
+          match no.toNat? with
+          | some no =>
+            match parseOrd no r2 with
+            | some (ord, lim :: off :: ptoks) =>
+              match lim.toInt?, off.toInt?, parsePred (ptoks.length + 1) ptoks with
+              | some lim, some off, some (p, []) =>
+                some (secs, { hint := hint, order := ord, limit := if lim < 0 then 0 else lim.toNat,
+                              offset := if off < 0 then 0 else off.toNat, where_ := p })
+              | _, _, _ => none
+            | _ => none
+          | none => none
+        | _ => none
+      | _ => none
+    | none => none
+  | [] => none
+
+def fmtPlan (pl : Plan) : String :=
+  "idx=" ++ ",".intercalate (pl.idx.map toString) ++ " desc=" ++ (if pl.desc then "1" else "0") ++
+    " sort=" ++ (if pl.sort then "1" else "0")
 
 def step (s : St) : List String → St × String
   | "tbl" :: n :: rest =>
@@ -54,6 +117,20 @@ def step (s : St) : List String → St × String
             | .error e => evalErrStr e)
         | _, _, _ => (s, "bad-op")
       | _ => (s, "bad-op")
+    | none => (s, "bad-op")
+  | "plan" :: rest =>
+    match parsePQ rest with
+    | some (secs, q) =>
+      (s, match q.where_.rangesF [] with
+        | .ok mF => fmtPlan (planOf s.tbl.pk secs q.hint q.order mF)
+        | .error e => evalErrStr e)
+    | none => (s, "bad-op")
+  | "pq" :: rest =>
+    match parsePQ rest with
+    | some (secs, q) =>
+      (s, match runPlan s.tbl secs q with
+        | .ok (_, rows) => "rows " ++ fmtRows rows
+        | .error e => evalErrStr e)
     | none => (s, "bad-op")
   | _ => (s, "bad-op")
 
